@@ -63,8 +63,16 @@ def instantiate_type(
         for idx, instantiation in enumerate(typename.instantiations):
             if instantiation.name in template_typenames:
                 template_idx = template_typenames.index(instantiation.name)
-                typename.instantiations[idx].name =\
-                    instantiations[template_idx]
+                # become the concrete type (a Typename stored in `name`
+                # cannot be looked up by the MATLAB type tables)
+                concrete = instantiations[template_idx]
+                if instantiation.namespaces:
+                    instantiation.name = concrete
+                else:
+                    instantiation.namespaces = list(concrete.namespaces)
+                    instantiation.name = concrete.name
+                    instantiation.instantiations = list(
+                        concrete.instantiations)
             else:
                 # scoped use inside the arguments, e.g. vector<T::Value>
                 if instantiation.namespaces and \
